@@ -121,7 +121,7 @@ ImplEffect(o, t) ==
 
 CtxMenu == [ud0 |-> <<"ud0">>, ud3 |-> <<"ud3">>, foreign |-> <<"foreign">>, create |-> <<"create">>,
             ud0_ud3 |-> <<"ud0", "ud3">>, ud0_ud0 |-> <<"ud0", "ud0">>, ud0_foreign |-> <<"ud0", "foreign">>,
-            grXs |-> <<"grXs">>, empty |-> <<>>]
+            grXs |-> <<"grXs">>, ext |-> <<"ext">>, empty |-> <<>>]
 Descs == [pred : DPreds, salt : DSalts, exec : DExecs]
 MetaSets == (IF 0 \in MetaLens THEN {<<>>} ELSE {}) \cup UNION {[1..n -> Descs] : n \in MetaLens \ {0}}
 Blank == [op |-> "none", id |-> "none", call |-> "none", who |-> "none", auth |-> FALSE, delay |-> 0, entry |-> FALSE,
